@@ -229,7 +229,10 @@ class Gen:
         return ('str', ''.join(r.choice(STR_ALPHABET) for _ in range(r.choice([0, 1, 1, 2, 3]))))
 
     def names_of(self, env, kind):
-        return [n for n, k in env.items() if k == kind]
+        # `partial` (60) is never used as a plain operand: inside a for it is the list of all previous results, and a body that returns it
+        # doubles the result size at every iteration (2^27 elements for three 3-element domains); it is referenced only by the special
+        # forms partial[-1] / x in partial of g_lnum and shadow_cases
+        return [n for n, k in env.items() if k == kind and n != 60]
 
     def fresh(self, env):
         if self.rng.random() < 0.06:
@@ -440,6 +443,8 @@ class Gen:
             ds = []
             for _ in range(nv):
                 v = self.fresh(env2)
+                if v == 60:
+                    v = 50      # a for-variable named `partial` is overwritten by the implicit one: the body would return the growing list
                 if r.random() < 0.35:
                     lo, hi = r.choice([(1, 3), (3, 1), (0, 0), (2, 4), (-1, 1)])
                     ds.append((v, ('drange', ('num', lo), ('num', hi))))
